@@ -145,6 +145,9 @@ def _targets(t) -> tuple:
     return tuple(sorted(t, key=str))
 
 
+FALL_ERRORS: list = []  # filled by chan_snap, read (and cleared) by snap
+
+
 def chan_snap(name, cs) -> ChanSnap:
     from pulser.pulse import Pulse
     from pulser.sequence._schedule import _DMMSchedule
@@ -157,9 +160,12 @@ def chan_snap(name, cs) -> ChanSnap:
         own = any(a <= s.ti < b for a, b in ivs)
         if isinstance(s.type, Pulse):
             sl = Slot("pulse", int(s.ti), int(s.tf), _targets(s.targets), pulse_info(s.type), own)
-            sl.fall_std = int(s.type.fall_time(cs.channel_obj, in_eom_mode=False))
-            if cs.channel_obj.supports_eom():
-                sl.fall_eom = int(s.type.fall_time(cs.channel_obj, in_eom_mode=True))
+            try:
+                sl.fall_std = int(s.type.fall_time(cs.channel_obj, in_eom_mode=False))
+                if cs.channel_obj.supports_eom():
+                    sl.fall_eom = int(s.type.fall_time(cs.channel_obj, in_eom_mode=True))
+            except Exception as e:  # the library cannot even tell the fall time of a pulse it scheduled: kept for the monitors
+                FALL_ERRORS.append(f"{name}: fall_time of the scheduled pulse [{s.ti},{s.tf}) raises {type(e).__name__}: {e}"[:200])
             sl.cur_eom = cur_eom
             slots.append(sl)
         else:
@@ -247,7 +253,9 @@ KNOWN_TRACKER_ATTRS = {"_times", "_phases"}
 def snap(seq, with_calls: bool = True) -> Snap:
     # state the snapshot does not know by name (e.g. a cache added later) is still part of the state: kept generically
     extra = tuple(sorted((k, canon_arg(v)) for k, v in vars(seq).items() if k not in KNOWN_SEQ_ATTRS))
+    FALL_ERRORS.clear()
     chans = {name: chan_snap(name, cs) for name, cs in seq._schedule.items()}
+    fall_errors = tuple(FALL_ERRORS)
     ref = {}
     for basis, d in seq._basis_ref.items():
         ref[basis] = {
@@ -267,6 +275,7 @@ def snap(seq, with_calls: bool = True) -> Snap:
         "vars": tuple(sorted((n, v.dtype.__name__, v.size) for n, v in seq._variables.items())),
         "maxdur": seq._schedule.max_duration,
         "qids": tuple(map(str, seq._register.qubit_ids)),
+        "fall_time_errors": fall_errors,
         "extra": extra + tuple(sorted((f"{name}.{k}", canon_arg(v)) for name, cs in seq._schedule.items()
                                       for k, v in vars(cs).items() if k not in KNOWN_CHSCHED_ATTRS)),
     }
